@@ -402,11 +402,15 @@ def cases(profile="general"):
                 # faults inside staging / cleanup of a device the plan really stages
                 dev = draw(st.sampled_from(sorted(b.staged)))
                 op = draw(st.sampled_from(["unstage", "unstage", "stage"]))
+            elif profile == "general" and draw(st.integers(0, 5)) == 0:
+                # a monitored signal whose subscription management fails once
+                dev = draw(st.sampled_from(SIGS))
+                op = draw(st.sampled_from(["clear_sub", "clear_sub", "subscribe"]))
             else:
                 dev = draw(st.sampled_from(DETS + MOTORS))
                 if dev in MOTORS:
                     op = draw(st.sampled_from(["set", "read", "stop", "unstage", "stage"]))
-                else:
+                elif dev in DETS:
                     op = draw(st.sampled_from(["trigger", "read", "unstage", "stage"]))
             kind = "raise"
             if op in ("set", "trigger") and draw(st.integers(0, 2)) > 0:
